@@ -42,6 +42,10 @@ def run(ctx):
         units = families.subwaker_units(M, ("merge",), groups=False)
         divides = indexer_divides_unguarded(ctx, M)
         c01.live_premises(ctx, M, units, "C08.LIVE")
+        # the scan order is the Indexer rotation: an input is not passed over for ever (every index once per pass, the
+        # start advancing by one per poll) - the rotation summaries of C17 are a premise of "items are not left undelivered"
+        from . import prims as _prims
+        _prims.check_indexer(ctx, M, "C08.LIVE")
         from . import ctors
         ctors.run_family(ctx, M, units, "C08.CTOR", cfg)
         for u in units:
